@@ -224,8 +224,13 @@ static void finish(int rc, int st, int with_rows) {
       }
       fputc('\n', out);
     } else {
-      int len = (int)res_n;
-      r_put(""); /* make sure res is allocated */
+      int len;
+      if (!res) { /* make sure res is allocated */
+        r_put("x");
+        r_reset();
+      }
+      len = (int)res_n;
+      res[len] = 0;
       MPI_Send(&len, 1, MPI_INT, 0, 7, MPI_COMM_WORLD);
       MPI_Send(res, len + 1, MPI_CHAR, 0, 8, MPI_COMM_WORLD);
     }
@@ -487,7 +492,7 @@ int main(int argc, char *argv[]) {
   }
   fd = dup(1);
   out = fdopen(fd, "w");
-  if (!freopen("/dev/null", "w", stdout)) return 3;
+  if (!getenv("H_SOL_STDOUT") && !freopen("/dev/null", "w", stdout)) return 3;
   signal(SIGALRM, on_alarm);
   for (;;) {
     int len = -1;
